@@ -54,7 +54,7 @@ func verifMakeCert(tag string, expectInstance uint64, baseEpoch int64, baseTag b
 		panic(err)
 	}
 	valid := true
-	defect := sym.Choice(tag+"-defect", 9)
+	defect := sym.Choice(tag+"-defect", 10)
 
 	instance := expectInstance
 	if defect == 1 {
@@ -96,6 +96,13 @@ func verifMakeCert(tag string, expectInstance uint64, baseEpoch int64, baseTag b
 	delta := MakePowerTableDiff(table, next)
 	if defect == 6 {
 		delta = MakePowerTableDiff(table, verifTable(k+2))
+		valid = false
+	}
+	if defect == 9 { // the delta stripped although the committed table differs from the current one
+		delta = nil
+		if sym.Bool(tag + "-empty-not-nil") {
+			delta = PowerTableDiff{}
+		}
 		valid = false
 	}
 	// signers: any subset; index n is out of range (full mode only)
